@@ -315,4 +315,404 @@ theorem sign_verifies_aux {pr : Prims} {fuel d : ℕ} {h : Bytes} {r s : ℕ}
     exact ⟨hne, hr.symm⟩
 
 
+/-! ### point decompression and key recovery -/
+
+theorem neg_sq_mod {y0 : ℕ} (hy : y0 < P) : (P - y0) % P * ((P - y0) % P) % P = y0 * y0 % P := by
+  rw [sq_eq_iff]
+  right
+  rw [ZMod.natCast_mod, Nat.cast_sub hy.le, ZMod.natCast_self, zero_sub]
+
+theorem decompressPoint_eq_liftX {x : ℕ} (hx : x < P) (b : Bool) :
+    Ecdsa.decompressPoint x b = liftX x b := by
+  have hx1 : x % 2 ^ 256 % P = x := by
+    rw [Nat.mod_eq_of_lt (Nat.lt_trans hx P_lt_pow), Nat.mod_eq_of_lt hx]
+  have hc : (x * x % P * x + 7) % P = (x * x * x + B) % P := by
+    show _ = (x * x * x + 7) % P
+    rw [Nat.add_mod, Nat.mul_mod, Nat.mod_mod, ← Nat.mul_mod, ← Nat.add_mod]
+  unfold Ecdsa.decompressPoint liftX
+  rw [if_neg (show ¬ x ≥ P by omega)]
+  simp only [EP, hx1, hc]
+  generalize (x * x * x + B) % P = c
+  have hy0 : sqrtCand c < P := sqrtCand_lt c
+  generalize sqrtCand c = y0 at *
+  have hneg := neg_sq_mod hy0
+  by_cases hpar : (y0 % 2 == 1) = b
+  · subst hpar
+    simp
+  · have h1 : (b != (y0 % 2 == 1)) = true := by
+      cases b <;> cases hq : (y0 % 2 == 1) <;> simp_all
+    have h2 : ((y0 % 2 == 1) == b) = false := by
+      cases b <;> cases hq : (y0 % 2 == 1) <;> simp_all
+    simp only [h1, h2, if_true, hneg, Bool.false_eq_true, if_false]
+    cases b <;> cases ((P - y0) % P % 2 == 1) <;> simp
+
+
+/-- `decompressPoint` is SEC1 point decompression: sound and complete. -/
+theorem decompressPoint_iff {x : ℕ} (hx : x < P) (b : Bool) (y : ℕ) :
+    Ecdsa.decompressPoint x b = some y ↔ y < P ∧ onCurve (x, y) = true ∧ (y % 2 == 1) = b := by
+  rw [decompressPoint_eq_liftX hx, liftX_spec]
+  constructor
+  · rintro ⟨_, h⟩; exact h
+  · intro h; exact ⟨hx, h⟩
+
+theorem valid_of_onCurve {x y : ℕ} (hx : x < P) (hy : y < P) (hc : onCurve (x, y) = true) :
+    valid (x, y) = true := by
+  simp [valid, hx, hy, hc]
+
+/-- SEC1 4.1.6 public key recovery: `Q = r⁻¹(s·R − e·G)` -/
+def recoverPt (R : Pt) (h : Bytes) (r s : ℕ) : Pt :=
+  padd (smul (invMod r N * s % N) R) (smul ((N - Ecdsa.hashToInt h % N) % N * invMod r N % N) G)
+
+theorem recoverKey_eq {r s : ℕ} (hr1 : 1 ≤ r) (hrN : r < N) (hs1 : 1 ≤ s) (hsN : s < N)
+    {iter : ℕ} (hrx : N * (iter / 2) + r < P) {ry : ℕ}
+    (hd : Ecdsa.decompressPoint (N * (iter / 2) + r) (iter % 2 == 1) = some ry)
+    (msg : Bytes) (chk : Bool) :
+    Ecdsa.recoverKey r s msg iter chk =
+      if recoverPt (N * (iter / 2) + r, ry) msg r s = inf then none
+      else some (recoverPt (N * (iter / 2) + r, ry) msg r s) := by
+  obtain ⟨hry, hcurve, _⟩ := (decompressPoint_iff hrx _ _).1 hd
+  have hv := valid_of_onCurve hrx hry hcurve
+  unfold Ecdsa.recoverKey
+  simp only [EN, EP]
+  rw [if_neg (by omega), if_neg (by omega), if_neg (by omega), if_neg (by omega), if_neg (by omega)]
+  simp only [hd, scalarMult_natBE _ N_lt_pow, smul_N_pt hv, scalarMult_natBE _ (mod_N_lt_pow _),
+    scalarBaseMult_natBE (mod_N_lt_pow _), Curve.add_def]
+  have : isInf inf = true := rfl
+  simp only [this, Bool.not_true, Bool.and_false, Bool.false_eq_true, if_false]
+  unfold recoverPt
+  generalize padd _ _ = X
+  obtain ⟨x, y⟩ := X
+  simp [inf]
+
+theorem recoverKey_some {r s : ℕ} {msg : Bytes} {iter : ℕ} {chk : Bool} {q : Pt}
+    (h : Ecdsa.recoverKey r s msg iter chk = some q) :
+    1 ≤ r ∧ r < N ∧ 1 ≤ s ∧ s < N ∧ N * (iter / 2) + r < P ∧
+      ∃ ry, Ecdsa.decompressPoint (N * (iter / 2) + r) (iter % 2 == 1) = some ry ∧
+        q = recoverPt (N * (iter / 2) + r, ry) msg r s ∧ q ≠ inf := by
+  have h' := h
+  unfold Ecdsa.recoverKey at h
+  simp only [EN, EP] at h
+  by_cases c1 : r ≥ N
+  · rw [if_pos c1] at h; cases h
+  rw [if_neg c1] at h
+  by_cases c2 : r = 0
+  · rw [if_pos c2] at h; cases h
+  rw [if_neg c2] at h
+  by_cases c3 : s ≥ N
+  · rw [if_pos c3] at h; cases h
+  rw [if_neg c3] at h
+  by_cases c4 : s = 0
+  · rw [if_pos c4] at h; cases h
+  rw [if_neg c4] at h
+  by_cases c5 : N * (iter / 2) + r ≥ P
+  · rw [if_pos c5] at h; cases h
+  rw [if_neg c5] at h
+  cases hd : Ecdsa.decompressPoint (N * (iter / 2) + r) (iter % 2 == 1) with
+  | none => simp only [hd] at h; cases h
+  | some ry =>
+    rw [recoverKey_eq (by omega) (by omega) (by omega) (by omega) (by omega) hd] at h'
+    refine ⟨by omega, by omega, by omega, by omega, by omega, ry, rfl, ?_⟩
+    by_cases hq : recoverPt (N * (iter / 2) + r, ry) msg r s = inf
+    · rw [if_pos hq] at h'; cases h'
+    · rw [if_neg hq] at h'
+      have := Option.some.inj h'
+      exact ⟨this.symm, this ▸ hq⟩
+
+
+theorem cast_neg_mod (e : ℕ) : ((N - e % N : ℕ) : Fn) = -(e : Fn) := by
+  rw [Nat.cast_sub (Nat.mod_lt _ N_pos).le, ZMod.natCast_self, ZMod.natCast_mod,
+    zero_sub]
+
+theorem valid_recoverPt {R : Pt} (hR : valid R = true) (h : Bytes) (r s : ℕ) :
+    valid (recoverPt R h r s) = true :=
+  valid_padd (valid_smul _ hR) (valid_smul _ valid_G)
+
+/-- the recovered key makes `(r,s)` verify: `(e/s)·G + (r/s)·r⁻¹(s·R − e·G) = R` -/
+theorem verifyPt_recoverPt {R : Pt} (hR : valid R = true) (h : Bytes) {r s : ℕ}
+    (hr1 : 1 ≤ r) (hrN : r < N) (hs1 : 1 ≤ s) (hsN : s < N) :
+    verifyPt (recoverPt R h r s) h r s = R := by
+  obtain ⟨t, htN, rfl⟩ := exists_mul_G_pt hR
+  have hrF : (r : Fn) ≠ 0 := castN_ne_zero hr1 hrN
+  have hsF : (s : Fn) ≠ 0 := castN_ne_zero hs1 hsN
+  unfold verifyPt recoverPt
+  rw [smul_smul _ _ valid_G, ← smul_add _ _ valid_G, smul_smul _ _ valid_G, ← smul_add _ _ valid_G]
+  apply smul_eq_of_cast valid_G
+  simp only [Nat.cast_add, Nat.cast_mul, ZMod.natCast_mod, cast_invModN, cast_neg_mod]
+  field_simp
+  ring
+
+
+/-! ### RecoverCompact -/
+
+theorem bitlen_eq : (Gen.c_BitSize + 7) / 8 = 32 := by decide
+
+theorem recoverCompact_length_aux {sig : Bytes} (h : Bytes) (hl : sig.length ≠ 65) :
+    Ecdsa.recoverCompact sig h = none := by
+  unfold Ecdsa.recoverCompact
+  simp only [bitlen_eq]
+  rw [if_pos (by simpa using hl)]
+
+/-- the recovery id encoded in the header byte -/
+def compactIter (sig : Bytes) : ℕ := ((sig.headD 0 - 27) &&& (~~~ (4 : UInt8))).toNat
+def compactFlag (sig : Bytes) : Bool := ((sig.headD 0 - 27) &&& 4) == 4
+def compactR (sig : Bytes) : ℕ := beNat ((sig.drop 1).take 32)
+def compactS (sig : Bytes) : ℕ := beNat (sig.drop 33)
+
+theorem recoverCompact_some {sig h : Bytes} {q : Pt} {c : Bool}
+    (hrc : Ecdsa.recoverCompact sig h = some (q, c)) :
+    sig.length = 65 ∧ c = compactFlag sig ∧
+      Ecdsa.recoverKey (compactR sig) (compactS sig) h (compactIter sig) false = some q := by
+  unfold Ecdsa.recoverCompact at hrc
+  simp only [bitlen_eq] at hrc
+  by_cases hl : sig.length = 65
+  · rw [if_neg (by simpa using hl)] at hrc
+    refine ⟨hl, ?_⟩
+    show c = compactFlag sig ∧ Ecdsa.recoverKey (beNat ((sig.drop 1).take 32)) (beNat (sig.drop (32 + 1))) h
+      ((sig.headD 0 - 27) &&& (~~~ (4 : UInt8))).toNat false = some q
+    cases hk : Ecdsa.recoverKey (beNat ((sig.drop 1).take 32)) (beNat (sig.drop (32 + 1))) h
+      ((sig.headD 0 - 27) &&& (~~~ (4 : UInt8))).toNat false with
+    | none => simp only [hk] at hrc; cases hrc
+    | some q' =>
+      simp only [hk] at hrc
+      have := Option.some.inj hrc
+      have h1 : q' = q := congrArg Prod.fst this
+      have h2 : _ = c := congrArg Prod.snd this
+      exact ⟨h2.symm, by rw [h1]⟩
+  · rw [if_pos (by simpa using hl)] at hrc; cases hrc
+
+theorem recoverKey_sound {r s : ℕ} {msg : Bytes} {iter : ℕ} {chk : Bool} {q : Pt}
+    (h : Ecdsa.recoverKey r s msg iter chk = some q) :
+    valid q = true ∧ q ≠ inf ∧ Ecdsa.verify q msg (r : Int) (s : Int) = true := by
+  obtain ⟨hr1, hrN, hs1, hsN, hrx, ry, hd, hq, hne⟩ := recoverKey_some h
+  obtain ⟨hry, hcurve, _⟩ := (decompressPoint_iff hrx _ _).1 hd
+  have hv := valid_of_onCurve hrx hry hcurve
+  refine ⟨by rw [hq]; exact valid_recoverPt hv _ _ _, hne, ?_⟩
+  rw [verify_of_range _ _ (by omega) (by omega) (by omega) (by omega), Int.toNat_natCast,
+    Int.toNat_natCast, hq, verifyPt_recoverPt hv msg hr1 hrN hs1 hsN]
+  constructor
+  · intro he
+    have : N * (iter / 2) + r = 0 := congrArg Prod.fst he
+    omega
+  · show (N * (iter / 2) + r) % N = r
+    rw [Nat.mul_add_mod, Nat.mod_eq_of_lt hrN]
+
+
+/-! ### SignCompact -/
+
+theorem pt_beq_iff (a b : Pt) : (a.1 == b.1 && a.2 == b.2) = true ↔ a = b := by
+  obtain ⟨a1, a2⟩ := a
+  obtain ⟨b1, b2⟩ := b
+  simp
+
+theorem compactLoop_some {r s : ℕ} {h : Bytes} {pub : Pt} {c : Bool} :
+    ∀ (fuel i0 : ℕ) (out : Bytes), Ecdsa.compactLoop r s h pub c fuel i0 = some out →
+      ∃ i, i0 ≤ i ∧ i < i0 + fuel ∧ Ecdsa.recoverKey r s h i true = some pub ∧
+        out = [UInt8.ofNat (27 + i + (if c then 4 else 0))] ++ natBEpad 32 r ++ natBEpad 32 s := by
+  intro fuel
+  induction fuel with
+  | zero => intro i0 out h; simp [Ecdsa.compactLoop] at h
+  | succ f ih =>
+    intro i0 out hc
+    unfold Ecdsa.compactLoop at hc
+    cases hk : Ecdsa.recoverKey r s h i0 true with
+    | none =>
+      simp only [hk] at hc
+      obtain ⟨i, h1, h2, h3⟩ := ih _ _ hc
+      exact ⟨i, by omega, by omega, h3⟩
+    | some pk =>
+      simp only [hk] at hc
+      by_cases heq : (pk.1 == pub.1 && pk.2 == pub.2) = true
+      · rw [if_pos heq] at hc
+        have hpk : pk = pub := (pt_beq_iff _ _).1 heq
+        exact ⟨i0, le_refl _, by omega, by rw [hk, hpk], (Option.some.inj hc).symm⟩
+      · rw [if_neg heq] at hc
+        obtain ⟨i, h1, h2, h3⟩ := ih _ _ hc
+        exact ⟨i, by omega, by omega, h3⟩
+
+theorem compactLoop_isSome {r s : ℕ} {h : Bytes} {pub : Pt} {c : Bool} :
+    ∀ (fuel i0 i : ℕ), i0 ≤ i → i < i0 + fuel → Ecdsa.recoverKey r s h i true = some pub →
+      (Ecdsa.compactLoop r s h pub c fuel i0).isSome = true := by
+  intro fuel
+  induction fuel with
+  | zero => intro i0 i h1 h2; omega
+  | succ f ih =>
+    intro i0 i h1 h2 hi
+    unfold Ecdsa.compactLoop
+    cases hk : Ecdsa.recoverKey r s h i0 true with
+    | none =>
+      simp only
+      have : i ≠ i0 := by rintro rfl; rw [hk] at hi; cases hi
+      exact ih (i0 + 1) i (by omega) (by omega) hi
+    | some pk =>
+      simp only
+      by_cases heq : (pk.1 == pub.1 && pk.2 == pub.2) = true
+      · rw [if_pos heq]; rfl
+      · rw [if_neg heq]
+        have : i ≠ i0 := by
+          rintro rfl
+          rw [hk] at hi
+          exact heq ((pt_beq_iff _ _).2 (Option.some.inj hi))
+        exact ih (i0 + 1) i (by omega) (by omega) hi
+
+theorem valid_ne_inf {R : Pt} (hR : valid R = true) (hne : R ≠ inf) :
+    R.1 < P ∧ R.2 < P ∧ onCurve R = true := by
+  have hi : isInf R = false := by
+    cases hc : isInf R
+    · rfl
+    · exact absurd ((isInf_iff R).1 hc) hne
+  have : (R.1 < P ∧ R.2 < P) ∧ onCurve R = true := by simpa [valid, hi] using hR
+  exact ⟨this.1.1, this.1.2, this.2⟩
+
+/-- some recovery id below 4 reconstructs `R` and hence returns the SEC1 key for it -/
+theorem exists_recoverKey_of_point {R : Pt} (hR : valid R = true) (hne : R ≠ inf) {r s : ℕ}
+    (hr1 : 1 ≤ r) (hrN : r < N) (hs1 : 1 ≤ s) (hsN : s < N) (hx : R.1 % N = r) (h : Bytes)
+    (hq : recoverPt R h r s ≠ inf) :
+    ∃ i, i < 4 ∧ Ecdsa.recoverKey r s h i true = some (recoverPt R h r s) := by
+  obtain ⟨hxP, hyP, hcurve⟩ := valid_ne_inf hR hne
+  obtain ⟨x, y⟩ := R
+  simp only at hxP hyP hx
+  have h2N := P_lt_two_N
+  have hj : x / N < 2 := by
+    rw [Nat.div_lt_iff_lt_mul N_pos]; omega
+  have hxe : N * (x / N) + r = x := by rw [← hx]; exact Nat.div_add_mod x N
+  refine ⟨2 * (x / N) + y % 2, by omega, ?_⟩
+  have hi2 : (2 * (x / N) + y % 2) / 2 = x / N := by omega
+  have hpar : ((2 * (x / N) + y % 2) % 2 == 1) = (y % 2 == 1) := by
+    congr 1; omega
+  have hd : Ecdsa.decompressPoint (N * ((2 * (x / N) + y % 2) / 2) + r)
+      ((2 * (x / N) + y % 2) % 2 == 1) = some y := by
+    rw [hi2, hxe, hpar, decompressPoint_iff hxP]
+    exact ⟨hyP, hcurve, rfl⟩
+  rw [recoverKey_eq hr1 hrN hs1 hsN (by rw [hi2, hxe]; exact hxP) hd, hi2, hxe, if_neg hq]
+
+
+/-- `r⁻¹(s·(t·G) − e·G) = d·G` whenever `s·t = d·r + e` in the scalar field -/
+theorem recoverPt_sign {d r s t : ℕ} (h : Bytes) (hr1 : 1 ≤ r) (hrN : r < N)
+    (hst : (s : Fn) * (t : Fn) = (d : Fn) * r + (Ecdsa.hashToInt h : Fn)) :
+    recoverPt (smul t G) h r s = smul d G := by
+  have hrF : (r : Fn) ≠ 0 := castN_ne_zero hr1 hrN
+  unfold recoverPt
+  rw [smul_smul _ _ valid_G, ← smul_add _ _ valid_G]
+  apply smul_eq_of_cast valid_G
+  simp only [Nat.cast_add, Nat.cast_mul, ZMod.natCast_mod, cast_invModN, cast_neg_mod]
+  rw [mul_assoc, hst]
+  field_simp
+  ring
+
+/-- for a signature produced by `sign` with a private key in range, some recovery id `< 4`
+recovers the signer's public key -/
+theorem sign_recoverable {pr : Prims} {fuel d : ℕ} {h : Bytes} {r s : ℕ} (hd1 : 1 ≤ d) (hdN : d < N)
+    (hs : Ecdsa.sign pr fuel d h = some (r, s)) :
+    ∃ i, i < 4 ∧ Ecdsa.recoverKey r s h i true = some (smul d G) := by
+  obtain ⟨hr1, hrN, hs1, hsN⟩ := sign_range_aux hs
+  obtain ⟨k, _, hk1, hkN, hr, hr0, s0, hs0, hs0ne, hs⟩ := sign_some hs
+  have hlt : s0 < N := by rw [hs0]; exact Nat.mod_lt _ N_pos
+  have hkF : (k : Fn) ≠ 0 := castN_ne_zero hk1 hkN
+  have hs0F : (s0 : Fn) * (k : Fn) = (d : Fn) * r + (Ecdsa.hashToInt h : Fn) := by
+    rw [hs0, ZMod.natCast_mod, Nat.cast_mul, Nat.cast_add, Nat.cast_mul, cast_invModN,
+      mul_assoc, inv_mul_cancel₀ hkF, mul_one]
+  have hdne : smul d G ≠ inf := smul_G_ne_inf hd1 hdN
+  have hkne : smul k G ≠ inf := smul_G_ne_inf hk1 hkN
+  have hN2 : N / 2 < N := by have := N_pos; omega
+  by_cases hflip : s0 > N / 2
+  · rw [if_pos hflip] at hs
+    -- R = −k·G = (N−k)·G
+    have hR : smul (N - k) G = pneg (smul k G) := by
+      apply smul_eq_pneg_of_cast valid_G
+      rw [Nat.cast_sub hkN.le, ZMod.natCast_self, zero_sub]
+    have hst : (s : Fn) * ((N - k : ℕ) : Fn) = (d : Fn) * r + (Ecdsa.hashToInt h : Fn) := by
+      rw [hs, Nat.cast_sub hlt.le, Nat.cast_sub hkN.le, ZMod.natCast_self, zero_sub, zero_sub,
+        neg_mul_neg, hs0F]
+    have hrec := recoverPt_sign (d := d) h hr1 hrN hst
+    have hv : valid (smul (N - k) G) = true := valid_smul _ valid_G
+    have hne : smul (N - k) G ≠ inf := by
+      rw [hR, Ne, pneg_eq_inf_iff (valid_smul _ valid_G)]; exact hkne
+    have hx : (smul (N - k) G).1 % N = r := by rw [hR, pneg_fst, hr]
+    obtain ⟨i, hi, hk⟩ := exists_recoverKey_of_point hv hne hr1 hrN hs1 (by omega) hx h
+      (by rw [hrec]; exact hdne)
+    exact ⟨i, hi, by rw [hk, hrec]⟩
+  · rw [if_neg hflip] at hs
+    have hst : (s : Fn) * (k : Fn) = (d : Fn) * r + (Ecdsa.hashToInt h : Fn) := by rw [hs, hs0F]
+    have hrec := recoverPt_sign (d := d) h hr1 hrN hst
+    obtain ⟨i, hi, hk⟩ := exists_recoverKey_of_point (valid_smul k valid_G) hkne hr1 hrN hs1
+      (by omega) hr.symm h (by rw [hrec]; exact hdne)
+    exact ⟨i, hi, by rw [hk, hrec]⟩
+
+theorem compactFuel_eq : (Gen.c_H + 1) * 2 = 4 := by decide
+
+theorem signCompact_total_aux {pr : Prims} {fuel d : ℕ} {h : Bytes} {r s : ℕ} (c : Bool)
+    (hd1 : 1 ≤ d) (hdN : d < N) (hs : Ecdsa.sign pr fuel d h = some (r, s)) :
+    (Ecdsa.signCompact pr fuel d (smul d G) h c).isSome = true := by
+  obtain ⟨i, hi, hk⟩ := sign_recoverable hd1 hdN hs
+  unfold Ecdsa.signCompact
+  rw [hs]
+  simp only [compactFuel_eq]
+  exact compactLoop_isSome 4 0 i (Nat.zero_le _) (by omega) hk
+
+theorem signCompact_some {pr : Prims} {fuel d : ℕ} {pub : Pt} {h : Bytes} {c : Bool} {out : Bytes}
+    (hsc : Ecdsa.signCompact pr fuel d pub h c = some out) :
+    ∃ r s i, Ecdsa.sign pr fuel d h = some (r, s) ∧ i < 4 ∧
+      Ecdsa.recoverKey r s h i true = some pub ∧
+      out = [UInt8.ofNat (27 + i + (if c then 4 else 0))] ++ natBEpad 32 r ++ natBEpad 32 s ∧
+      out.length = 65 := by
+  unfold Ecdsa.signCompact at hsc
+  cases hs : Ecdsa.sign pr fuel d h with
+  | none => simp only [hs] at hsc; cases hsc
+  | some rs =>
+    obtain ⟨r, s⟩ := rs
+    simp only [hs, compactFuel_eq] at hsc
+    obtain ⟨i, _, hi, hk, hout⟩ := compactLoop_some _ _ _ hsc
+    obtain ⟨hr1, hrN, hs1, hsN⟩ := sign_range_aux hs
+    have hr256 : r < 256 ^ 32 := by rw [pow256]; exact Nat.lt_trans hrN N_lt_pow
+    have hs256 : s < 256 ^ 32 := by
+      rw [pow256]; have := N_lt_pow; have := N_pos; omega
+    refine ⟨r, s, i, rfl, by omega, hk, hout, ?_⟩
+    rw [hout, List.length_append, List.length_append, natBEpad_length _ _ hr256,
+      natBEpad_length _ _ hs256]
+    rfl
+
+
+theorem recoverKey_chk {r s : ℕ} {msg : Bytes} {i : ℕ} {q : Pt}
+    (h : Ecdsa.recoverKey r s msg i true = some q) : Ecdsa.recoverKey r s msg i false = some q := by
+  obtain ⟨hr1, hrN, hs1, hsN, hrx, ry, hd, hq, hne⟩ := recoverKey_some h
+  rw [recoverKey_eq hr1 hrN hs1 hsN hrx hd, ← hq, if_neg hne]
+
+theorem header_decode : ∀ (i : Fin 4) (c : Bool),
+    (((UInt8.ofNat (27 + i.val + (if c then 4 else 0)) - 27) &&& (~~~ (4 : UInt8))).toNat = i.val) ∧
+    ((((UInt8.ofNat (27 + i.val + (if c then 4 else 0)) - 27) &&& 4) == 4) = c) := by decide
+
+theorem recoverCompact_eq {sig : Bytes} (hl : sig.length = 65) (h : Bytes) :
+    Ecdsa.recoverCompact sig h =
+      match Ecdsa.recoverKey (compactR sig) (compactS sig) h (compactIter sig) false with
+      | none => none
+      | some q => some (q, compactFlag sig) := by
+  unfold Ecdsa.recoverCompact
+  simp only [bitlen_eq]
+  rw [if_neg (by simp [hl])]
+  rfl
+
+theorem recover_signCompact_aux {pr : Prims} {fuel d : ℕ} {pub : Pt} {h : Bytes} {c : Bool}
+    {out : Bytes} (hsc : Ecdsa.signCompact pr fuel d pub h c = some out) :
+    Ecdsa.recoverCompact out h = some (pub, c) := by
+  obtain ⟨r, s, i, hs, hi, hk, hout, hlen⟩ := signCompact_some hsc
+  obtain ⟨hr1, hrN, hs1, hsN⟩ := sign_range_aux hs
+  have hr256 : r < 256 ^ 32 := by rw [pow256]; exact Nat.lt_trans hrN N_lt_pow
+  have hcons : out = UInt8.ofNat (27 + i + (if c then 4 else 0)) :: (natBEpad 32 r ++ natBEpad 32 s) := by
+    rw [hout]; simp
+  have hR : compactR out = r := by
+    unfold compactR
+    rw [hcons, List.drop_succ_cons, List.drop_zero, take_natBEpad_append _ _ _ hr256, beNat_natBEpad]
+  have hS : compactS out = s := by
+    unfold compactS
+    rw [hcons, List.drop_succ_cons, drop_natBEpad_append _ _ _ hr256, beNat_natBEpad]
+  have hdec := header_decode ⟨i, hi⟩ c
+  have hI : compactIter out = i := by
+    unfold compactIter
+    rw [hcons, List.headD_cons]; exact hdec.1
+  have hF : compactFlag out = c := by
+    unfold compactFlag
+    rw [hcons, List.headD_cons]; exact hdec.2
+  rw [recoverCompact_eq hlen, hR, hS, hI, hF, recoverKey_chk hk]
+
+
 end GoBk.Proofs
